@@ -244,7 +244,14 @@ ASSUME LiftLaws ==
 \* is nth(a) followed by what is left, step_by(b) is next() and then nth(b - 1) over and over (the route std takes),
 \* last / count / collect agree, rev / nth_back are the mirror images -- and all of it is RELATIVE to what is left
 \* after any prefix of next() / next_back() calls.
-RECURSIVE ItDrop(_, _), ItDropBack(_, _), ItStepNth(_, _), ItDrain(_), ItDrainBack(_)
+RECURSIVE ItDrop(_, _), ItDropBack(_, _), ItStepNth(_, _), ItDrain(_), ItDrainBack(_), ItCycleNext(_, _, _)
+\* std's Cycle { orig, iter }: next() = iter.next(), and when that is exhausted iter = orig.clone() and once more;
+\* a clone of an iterator = the same sequence of remaining items
+ItCycleNext(orig, cur, j) ==
+  IF j = 0 THEN << >>
+  ELSE LET r == ItNext(cur) IN
+       IF r.items # << >> THEN r.items \o ItCycleNext(orig, r.rem, j - 1)
+       ELSE LET r2 == ItNext(orig) IN IF r2.items = << >> THEN << >> ELSE r2.items \o ItCycleNext(orig, r2.rem, j - 1)
 ItDrop(rem, j)     == IF j = 0 THEN rem ELSE ItDrop(ItNext(rem).rem, j - 1)              \* j times next()
 ItDropBack(rem, j) == IF j = 0 THEN rem ELSE ItDropBack(ItNextBack(rem).rem, j - 1)      \* j times next_back()
 ItDrain(rem)       == LET r == ItNext(rem) IN IF r.items = << >> THEN << >> ELSE r.items \o ItDrain(r.rem)
@@ -262,6 +269,13 @@ ASSUME IterLaws ==
        /\ ItDrain(rem) = rem /\ ItDrainBack(rem) = ItRev(rem)
        /\ ItOp("collect", 0, rem).items = ItDrain(rem) /\ ItOp("rev", 0, rem).items = ItDrainBack(rem)
        /\ ItOp("count", 0, rem).cnt = Len(ItDrain(rem))
+       \* clone-and-continue: the clone yields what the original has yet to yield (channels idx .. end-1, NOT 0 ..), the
+       \* original is where it was; cycle() = std's route over such clones = the remaining items over and over
+       /\ ItOp("clone", 0, rem).items = ItDrain(rem) /\ ItOp("clone", 0, rem).rem = rem /\ ItOp("clone", 0, rem).alive
+       /\ ItOp("clone", 0, rem).items = SubSeq(x, MinN(k, n) + 1, n - MinN(kb, n - MinN(k, n)))
+       /\ \A j \in 0..(2 * n + 2) :
+            /\ ItOp("cycle", j, rem).items = ItCycleNext(rem, rem, j) /\ ~ItOp("cycle", j, rem).alive
+            /\ (rem # << >> => Len(ItCycle(rem, j)) = j) /\ (rem = << >> => ItCycle(rem, j) = << >>)
        /\ ItOp("last", 0, rem).items = (IF rem = << >> THEN << >> ELSE << ItDrain(rem)[Len(rem)] >>)
        /\ \A j \in 0..(n + 2) :
             /\ ItNth(rem, j) = ItNext(ItDrop(rem, j))
@@ -370,6 +384,8 @@ ItCalls(it, nn) ==
      { << "nth", j >> : j \in 0..(nn + 1) } \cup { << "skip", j >> : j \in 0..(nn + 1) } \cup { << "step_by", j >> : j \in 1..(nn + 1) }
   \cup { << "last", 0 >>, << "count", 0 >>, << "collect", 0 >> }
   \cup (IF it = "val" THEN {} ELSE { << "rev", 0 >> } \cup { << "nth_back", j >> : j \in 0..(nn + 1) })
+  \* round 5: clone-and-continue (ChannelsMut is not Clone)
+  \cup (IF it = "mut" THEN {} ELSE { << "clone", 0 >> } \cup { << "cycle", j >> : j \in {0, 1, nn, nn + 1, 2 * nn + 1} })
 ItPrefixes(f, it, nn) ==       \* (k, kb)
   LET full == f \in {"i16", "f32"} IN
   IF it = "val" THEN { << k, 0 >> : k \in (IF full THEN 0..(nn + 1) ELSE {0, 1, nn}) }
@@ -456,7 +472,11 @@ SliceExecs(f) ==
                                                    x |-> FFJ(f, SmallFrames(f, 0, NW(p[1]), m)),
                                                    w |-> FJ(f, SmallSeq(f, 100, NW(p[1]) * m))]]
                          : m \in 0..2, rt \in Routes }) : p \in { q \in ViewNL(f) : q[2] = 0 } }) ])
-InPlaceExecs(f) ==
+\* (round 5) the pairs with a LONGER than b travel in executions of their own (InPlaceExecs(f, TRUE)), placed at the very
+\* end of the stimuli: code that skips the length check reads b out of bounds there and may take the harness process down
+\* (the check then attributes the crash to that execution); the pairs with a shorter than b -- where such code silently
+\* modifies a -- are judged event by event whatever happens to the others
+InPlaceExecs(f, longer) ==
   LET sf == SignedOf(f) af == FloatOf(sf)
       mk(op, n, la, lb) == [ev |-> "inplace", a |-> [fmt |-> f, n |-> n, op |-> op, la |-> la, lb |-> lb,
                                xa |-> FFJ(f, SmallFrames(f, 0, NW(n), la)),
@@ -464,9 +484,12 @@ InPlaceExecs(f) ==
                                                                   ELSE FFJ(f, SmallFrames(f, 50, NW(n), lb)),
                                ys |-> FFJ(f, SmallFrames(f, 200, NW(n), la)),
                                ampf |-> FJ(af, Rot(FlW(sf), 1, NW(n)))]]
-  IN SetToSeq({ Exec("slice", "inplace", { mk(op, n, la, lb) : la \in 0..MaxL, lb \in 0..MaxL })
-                  : op \in {"zip_map", "write", "add", "add_amp"}, n \in 0..3 })
-     \o SetToSeq({ Exec("slice", "inplace", { mk(op, n, la, 0) : la \in 0..MaxL }) : op \in {"equilibrium", "map"}, n \in 0..3 })
+  IN IF longer
+       THEN SetToSeq({ Exec("slice", "inplace_longer", UNION { { mk(op, n, la, lb) : lb \in 0..(la - 1) } : la \in 1..MaxL })
+                         : op \in {"zip_map", "write", "add", "add_amp"}, n \in 0..3 })
+       ELSE SetToSeq({ Exec("slice", "inplace", UNION { { mk(op, n, la, lb) : lb \in la..MaxL } : la \in 0..MaxL })
+                         : op \in {"zip_map", "write", "add", "add_amp"}, n \in 0..3 })
+            \o SetToSeq({ Exec("slice", "inplace", { mk(op, n, la, 0) : la \in 0..MaxL }) : op \in {"equilibrium", "map"}, n \in 0..3 })
 
 \* round 4: the in-place additions as IDENTITIES on extreme values: add the zero slice; add-with-gain 1.0 per channel
 \* of the zero slice; add-with-gain 1.0 of a slice of extreme Signed amplitudes onto a slice at equilibrium (the scaled
@@ -489,7 +512,8 @@ EdgeInPlaceExecs(f) ==
 \* WITHOUT parameters once per worker at start-up, which would build the whole stimuli set four times over)
 StimuliOf(part) ==
      (IF part \in {"all", "frame"} THEN Concat([j \in 1..Len(FmtSeq) |-> SampleExecs(FmtSeq[j]) \o FrameExecs(FmtSeq[j]) \o IdentityExecs(FmtSeq[j])]) ELSE << >>)
-  \o (IF part \in {"all", "slice"} THEN Concat([j \in 1..Len(FmtSeq) |-> SliceExecs(FmtSeq[j]) \o InPlaceExecs(FmtSeq[j]) \o EdgeInPlaceExecs(FmtSeq[j])]) ELSE << >>)
+  \o (IF part \in {"all", "slice"} THEN Concat([j \in 1..Len(FmtSeq) |-> SliceExecs(FmtSeq[j]) \o InPlaceExecs(FmtSeq[j], FALSE) \o EdgeInPlaceExecs(FmtSeq[j])])
+                                        \o Concat([j \in 1..Len(FmtSeq) |-> InPlaceExecs(FmtSeq[j], TRUE)]) ELSE << >>)
 SumLen(ss) == FoldSeq(LAMBDA e, acc : acc + Len(e) - 1, 0, ss)            \* events, resets not counted (iterative: thousands of executions)
 ASSUME IF "STIM_OUT" \in DOMAIN IOEnv
          THEN LET st == StimuliOf(Part) IN
